@@ -341,6 +341,13 @@ func init() {
 			for i := 0; i < n; i++ {
 				jobs = append(jobs, Job{Variant: "plain", Mode: "db.proto", Args: js(map[string]interface{}{"Cfg": protoCfg(i), "Prop": "c12", "Streams": 3, "Cmds": 40, "Mutated": mutated, "Attrib": attrib, "Conns": 8, "CutSweeps": cuts, "MaxBody": []int{3000, 24000, 24000, 3000}[i%4]})})
 			}
+			// slow clients (body after the server's receive timeout): a job of its own, the only one with a short timeout_ms
+			slow := 40
+			if tier == "thorough" {
+				slow = 400
+			}
+			jobs = append(jobs, Job{Variant: "plain", Mode: "db.proto", Args: js(map[string]interface{}{"Cfg": protoCfg(2), "Prop": "c12", "Slow": slow, "MaxBody": 24000})})
+			jobs = append(jobs, Job{Variant: "plain", Mode: "db.proto", Args: js(map[string]interface{}{"Cfg": protoCfg(0), "Prop": "c12", "Slow": slow, "MaxBody": 24000})})
 			jobs = append(jobs, Job{Variant: "race", Mode: "db.proto", Args: js(map[string]interface{}{"Cfg": protoCfg(2), "Prop": "c12", "Streams": 3, "Cmds": 60, "Mutated": 30, "Attrib": 80, "Conns": 8})})
 			jobs = append(jobs, Job{Variant: "asan", Mode: "db.proto", Args: js(map[string]interface{}{"Cfg": protoCfg(2), "Prop": "c12", "Streams": 3, "Cmds": 60, "Mutated": 60, "Attrib": 150, "Conns": 8, "MaxBody": 24000})})
 			return jobs
